@@ -271,10 +271,21 @@ def wellTyped (T : MethodTable) (timeImported : Bool) (c : Chain) : Option Bool 
 def _root_.Gozod.GenEmit.Arg.usesRegexp : Arg → Bool
   | .regexp _ => true | _ => false
 
+/-- the type arguments written in a constructor expression (`gozod.Slice[T](…)`, `gozod.Record[string, V](…)`,
+    `gozod.FromStruct[T]()`, …) — the only places where an emitted expression can name a package other than gozod and regexp;
+    the string literals of `gozod.Enum("…")` are not among them -/
+def _root_.Gozod.GenEmit.CExpr.typeArgs : CExpr → List Str
+  | .fromStruct t => [t]
+  | .fromStructPtr t => [t]
+  | .lazyStruct n => [n]
+  | .slice _ targ e => targ.toList ++ e.typeArgs
+  | .record _ targ e => targ.toList ++ e.typeArgs
+  | _ => []
+
 /-- packages an emitted expression refers to, beside gozod (`time` through a type argument naming `time.Time`) -/
 def usesPkg (c : Chain) (pkg : String) : Bool :=
   (pkg == "regexp" && c.calls.any fun k => k.args.any Arg.usesRegexp) ||
-  (pkg == "time" && hasInfix (asc "time.") c.ctor.render)
+  (pkg == "time" && c.ctor.typeArgs.any (hasInfix (asc "time.")))
 
 /-- every import written for the struct is used by some field's expression -/
 def importsUsed (W : WriterFacts) (rules : List (List Rule)) (chains : List Chain) : Bool :=
